@@ -167,11 +167,12 @@ class PyWrapper:
             max_list_size=max_list_size,
         )
         pythonized_scalars = {
-            oid: value.pythonize() for oid, value in raw_output.scalars.items()
+            str(oid): value.pythonize()
+            for oid, value in raw_output.scalars.items()
         }
         pythonized_list = OrderedDict(
             [
-                (oid, value.pythonize())
+                (str(oid), value.pythonize())
                 for oid, value in raw_output.listing.items()
             ]
         )
